@@ -28,6 +28,16 @@ def lock_gate():
     return gen_gate("LockCheck", THEOREMS, 2)
 
 
+# Gen/AckCheck.v (C02, C05): the request methods wait for the actor's answer (send, then recv); instances of
+# Proofs/ReqRespP.v
+ACK_THEOREMS = ["deltio_acknowledge_waits", "deltio_modify_waits", "deltio_handlers_forward",
+                "deltio_ack_applied_on_return", "deltio_modify_applied_on_return"]
+
+
+def ack_gate():
+    return gen_gate("AckCheck", ACK_THEOREMS, 3)
+
+
 def push_gate():
     return gen_gate("PushCheck", PUSH_THEOREMS, 3)
 
